@@ -168,7 +168,12 @@ pub fn run_partition(case: &Case, check_infix: bool) -> PartResult {
             }
         }
     }
-    if out.fail.is_none() {
+    if ex.failed_writes > 0 {
+        out.class("failed-write");
+    }
+    // (the report of an injected write failure is C19's subject; here it only means that the
+    // error channel is not expected to be empty)
+    if out.fail.is_none() && ex.failed_writes == 0 {
         if let Ok(e) = std::fs::read_to_string(&err) {
             let e = crate::util::filter_errchan(&e);
             if !e.is_empty() {
